@@ -244,11 +244,18 @@ fn verif_sched_twins()
 fn run_corpus(name: &str, rules: &str, setup: fn(&mut FakeSystem), points: &[(&'static str, &'static str)], targets: &[&str],
               want_verdict: Option<&str>, forbidden_commands: &[&str], tallies: &mut [(usize, usize); 4])
 {
+    run_corpus_with(name, rules, setup, points, DELAY_MS, targets, want_verdict, forbidden_commands, tallies)
+}
+/*  the same with the length of one delay step given: a LONG pause (most of a second) is what shows a thread that stops listening
+    after a while instead of waiting for every source (a "grace period" is a schedule dependence) */
+fn run_corpus_with(name: &str, rules: &str, setup: fn(&mut FakeSystem), points: &[(&'static str, &'static str)], step_ms: u64, targets: &[&str],
+              want_verdict: Option<&str>, forbidden_commands: &[&str], tallies: &mut [(usize, usize); 4])
+{
     let levels : usize = std::env::var("VERIF_SCHED_LEVELS").ok().and_then(|s| s.parse().ok()).unwrap_or(2);
     let mut reference : Option<(String, Vec<Option<String>>, String)> = None;
     for code in 0..levels.pow(points.len() as u32)
     {
-        let delays : Vec<(&'static str, &'static str, u64)> = points.iter().enumerate().map(|(i, (o, s))| (*o, *s, ((code / levels.pow(i as u32)) % levels) as u64 * DELAY_MS)).collect();
+        let delays : Vec<(&'static str, &'static str, u64)> = points.iter().enumerate().map(|(i, (o, s))| (*o, *s, ((code / levels.pow(i as u32)) % levels) as u64 * step_ms)).collect();
         let label = format!("{}, delays {:?}", name, delays.iter().map(|d| d.2).collect::<Vec<u64>>());
         let mut system = FakeSystem::new(10);
         write_str_to_file(&mut system, "build.rules", rules).unwrap();
@@ -261,8 +268,20 @@ fn run_corpus(name: &str, rules: &str, setup: fn(&mut FakeSystem), points: &[(&'
         tallies[2].0 += 1;
         let result = match rx.recv_timeout(Duration::from_secs(20))
         {
-            Err(_) => { tallies[2].1 += 1; println!("WITNESS B-sched-C05 :: {} :: build() did not return within 20 s", label); continue; },
-            Ok(Err(_)) => { tallies[2].1 += 1; println!("WITNESS B-sched-C05 :: {} :: build() panicked", label); continue; },
+            other @ (Err(_) | Ok(Err(_))) =>
+            {
+                /*  no return value: a C05 failure, and -- when another schedule of the same workspace gives a different outcome -- a C06 one */
+                let hung = other.is_err();
+                let what = if hung { "build() did not return within 20 s" } else { "build() panicked" };
+                tallies[2].1 += 1; println!("WITNESS B-sched-C05 :: {} :: {}", label, what);
+                tallies[3].0 += 1;
+                match &reference
+                {
+                    None => reference = Some((what.to_string(), vec![], label.clone())),
+                    Some((rv, _rf, rl)) => if *rv != what { tallies[3].1 += 1; if tallies[3].1 <= 4 { println!("WITNESS B-sched-C06 :: {} :: {} but the outcome is {} under [{}]", label, what, rv, rl); } },
+                }
+                continue;
+            },
             Ok(Ok(r)) => r,
         };
         /*  a moment for threads the build may have left behind (a build that gave up early does not join them) */
@@ -440,6 +459,8 @@ fn verif_sched_corpora()
     run_corpus("two rules fail alike", RULES_TWO_FAIL, setup_in, &[("open", "in.txt"), ("command", "middle.txt")], &["left.txt", "right.txt", "middle.txt"],
                Some("WorkErrors[\"CommandExecutedButErrored\", \"CommandExecutedButErrored\"]"), &[], &mut t);
     run_corpus("two missing leaves around a slow one", RULES_FANIN, setup_fanin, &[("open", "m_slow.txt"), ("command", "poem.txt")], &["middle.txt", "poem.txt"],
+               Some("WorkErrors[\"FileNotFound(a_missing.txt)\", \"FileNotFound(z_missing.txt)\"]"), &["mycat middle.txt poem.txt"], &mut t);
+    run_corpus_with("two missing leaves around a VERY slow one", RULES_FANIN, setup_fanin, &[("open", "m_slow.txt")], 700, &["middle.txt", "poem.txt"],
                Some("WorkErrors[\"FileNotFound(a_missing.txt)\", \"FileNotFound(z_missing.txt)\"]"), &["mycat middle.txt poem.txt"], &mut t);
     run_corpus("one cache entry for two rules", RULES_SHARED, setup_shared, &[("open", ".ruler/cache"), ("rename", "a.txt"), ("rename", "b.txt")], &["a.txt", "b.txt"], Some("Ok"), &[], &mut t);
     run_corpus("two independent rules bring their targets back into one directory that is gone", RULES_OUTDIR, setup_outdir,
